@@ -42,6 +42,9 @@ pub trait Family: 'static + Sized + Send + Sync {
     /// PUBLISH with topic "t", QoS 0, no properties and the given payload
     fn publish_with_payload(payload: Vec<u8>) -> Self::Packet;
     fn type_index(p: &Self::Packet) -> usize;
+    /// every invariant-bearing field of a packet
+    fn walk(p: &Self::Packet) -> Vec<crate::walk::Field<'_>>;
+    const FIELD_LABELS: &'static [&'static str];
     /// the family's error value for a catalogue expectation
     fn from_exp(e: &crate::mutate::ExpErr) -> Option<Self::Error>;
     /// every separately encodable part reachable from the packet (body, will, property sets, protocol)
@@ -157,6 +160,10 @@ impl Family for V3 {
     fn from_exp(e: &crate::mutate::ExpErr) -> Option<Self::Error> {
         e.v3()
     }
+    fn walk(p: &Self::Packet) -> Vec<crate::walk::Field<'_>> {
+        crate::walk::fields_v3(p)
+    }
+    const FIELD_LABELS: &'static [&'static str] = crate::walk::V3_LABELS;
     fn parts(p: &Self::Packet) -> Vec<Part> {
         use v3::Packet as P;
         let mut v = Vec::new();
@@ -281,6 +288,10 @@ impl Family for V5 {
     fn from_exp(e: &crate::mutate::ExpErr) -> Option<Self::Error> {
         e.v5()
     }
+    fn walk(p: &Self::Packet) -> Vec<crate::walk::Field<'_>> {
+        crate::walk::fields_v5(p)
+    }
+    const FIELD_LABELS: &'static [&'static str] = crate::walk::V5_LABELS;
     fn parts(p: &Self::Packet) -> Vec<Part> {
         use v5::Packet as P;
         let mut v = Vec::new();
